@@ -967,7 +967,7 @@ func (w *world) finish() {
 	}
 	sort.Strings(ks)
 	if len(w.ref) >= 2 && w.pages >= 2 {
-		w.r.Distinct(fmt.Sprintf("%s/%s/%s|%s|n=%d", w.sto, w.idx, w.root, strings.Join(ks, ","), bucket(len(w.ref))))
+		w.r.Distinct(fmt.Sprintf("%s/%s/%s|%s|n=%d|pages=%d", w.sto, w.idx, w.root, strings.Join(ks, ","), len(w.ref), w.pages))
 	}
 }
 
@@ -976,25 +976,19 @@ func Run(r *hk.Run) {
 	w := &world{r: r, st: st}
 	defer setLive(nil)
 	R := r.R
-	r.Res.Rule = "a case = one in-process server built by serverinit from a high-level configuration (storage memory/localdisk/diskpacked/blobpacked × index memory/leveldb/kv/sqlite; blob root /bs/ or /bs-and-maybe-also-index/) behind an httptest.Server, then a random history of raw protocol requests (PUT with and without Content-Length, multipart with 0–5 parts, batch stat by GET and POST with holes, duplicates, bogus refs, 0..1002 blobs, GET/HEAD/Range, enumerate with every limit text, cursor and maxwaitsec text) and pkg/client calls (Upload with and without pre-stat and have-cache, StatBlobs, Fetch, EnumerateBlobsOpts with its page size rewritten by the transport to every value, After, Limit, MaxWait), ended by a sweep (client enumeration, raw paging with two limits, stat of the whole pool, GET of every blob). Every answer is checked against the reference map here and, line by line, against the Lean model. distinct_nontrivial = distinct (configuration, set of op kinds, size class of the map) triples of histories that stored ≥ 2 blobs and paged through ≥ 2 pages"
+	r.Res.Rule = "a case = one in-process server built by serverinit from a high-level configuration (storage memory/localdisk/diskpacked/blobpacked × index memory/leveldb/kv/sqlite; blob root /bs/ or /bs-and-maybe-also-index/) behind an httptest.Server, then a random history of raw protocol requests (PUT with and without Content-Length, multipart with 0–5 parts, batch stat by GET and POST with holes, duplicates, bogus refs, 0..1002 blobs, GET/HEAD/Range, enumerate with every limit text, cursor and maxwaitsec text) and pkg/client calls (Upload with and without pre-stat and have-cache, StatBlobs, Fetch, EnumerateBlobsOpts with its page size rewritten by the transport to every value, After, Limit, MaxWait), ended by a sweep (client enumeration, raw paging with two limits, stat of the whole pool, GET of every blob). Every answer is checked against the reference map here and, line by line, against the Lean model. distinct_nontrivial = distinct (configuration, set of op kinds, number of blobs stored, number of enumerate pages fetched) tuples of histories that stored ≥ 2 blobs and paged through ≥ 2 pages, plus one per directed scenario and configuration"
 
 	type conf struct{ sto, idx, root string }
 	var confs []conf
-	i := 0
 	for _, sto := range storageKinds {
 		for _, idx := range indexKinds {
-			if r.Thorough() {
-				confs = append(confs, conf{sto, idx, "bs"}, conf{sto, idx, "cond"})
-			} else {
-				// quick: every storage × index once, the root alternating
-				confs = append(confs, conf{sto, idx, []string{"cond", "bs"}[i%2]})
-			}
-			i++
+			confs = append(confs, conf{sto, idx, "bs"}, conf{sto, idx, "cond"})
+
 		}
 	}
-	rounds, nOps, poolN := 1, 70, 14
+	rounds, nOps, poolN := 1, 80, 14
 	if r.Thorough() {
-		rounds, nOps, poolN = 4, 140, 22
+		rounds, nOps, poolN = 6, 160, 24
 	}
 	for round := 0; round < rounds; round++ {
 		for _, c := range confs {
